@@ -47,6 +47,10 @@ def mpi (s : Stack) : Bool × Option Nat × List (Eventgroup × Addr) × List (A
 @[simp] theorem mpi_with_findLog (s : Stack) (x : List (Nat × Nat)) : mpi { s with findLog := x } = mpi s := rfl
 @[simp] theorem mpi_with_findMarks (s : Stack) (x : List (Nat × Nat)) : mpi { s with findMarks := x } = mpi s := rfl
 @[simp] theorem mpi_with_ansLog (s : Stack) (x : List (Nat × Addr × Nat × Nat)) : mpi { s with ansLog := x } = mpi s := rfl
+@[simp] theorem mpi_with_lisLog (s : Stack) (x : List (LId × Bool × SvcKey × Addr)) : mpi { s with lisLog := x } = mpi s := rfl
+@[simp] theorem mpi_logLis (s : Stack) (id : LId) (o : Bool) (k : SvcKey) (a : Addr) : mpi (s.logLis id o k a) = mpi s := rfl
+@[simp] theorem mpi_with_lisDup (s : Stack) (x : Bool) : mpi { s with lisDup := x } = mpi s := rfl
+@[simp] theorem mpi_markDup (s : Stack) (d : Bool) : mpi (s.markDup d) = mpi s := rfl
 @[simp] theorem mpi_logAnswer (s : Stack) (i : Nat) (a : Addr) (d : Nat) : mpi (s.logAnswer i a d) = mpi s := rfl
 @[simp] theorem mpi_markFind (s : Stack) (n : Nat) : mpi (s.markFind n) = mpi s := rfl
 @[simp] theorem mpi_with_offLog (s : Stack) (x : List (Nat × OEv × Nat)) : mpi { s with offLog := x } = mpi s := rfl
